@@ -5,9 +5,6 @@
 From TV Require Import Base.Prelude Base.Winnow Model.Tree Model.Parse Model.Document Spec.Defs.
 From TV Require Import Proofs.DefsEquivBase.
 
-Definition tkey (b : byte) : key := mkKey [b] None decor_default decor_default.
-Definition tval (i : Z) : value := VScalar (SInt i) None decor_default.
-
 Definition veqb (a b : value) : bool :=
   match a, b with
   | VScalar (SInt x) _ _, VScalar (SInt y) _ _ => Z.eqb x y
